@@ -392,6 +392,10 @@ def rec_large(des, wt, sc, cons, first=None):
         "pos5": [int(round(p * 100000)) if abs(p) < 1000 else None for p in pos],
         "pos6": [int(round(p * 1000000)) if abs(p) < 1000 else None for p in pos],
         "ret14": limbs(int(round(Fraction(ret) * 10 ** 14))) if ret is not None else [],
+        # the same at full float precision: |position - desired| in units of 1e-12 (exact rational arithmetic on the floats the
+        # solver reports), returned cost in units of 1e-26 (weights x100): the 1e-6 grid above is far too coarse for 1e10 weights
+        "disp12": [limbs(abs(int(round((Fraction(p) - Fraction(d)) * 10 ** 12)))) for p, d in zip(pos, des)],
+        "ret26": limbs(int(round(Fraction(ret) * 10 ** 26))) if ret is not None else [],
         "terminated": 1 if term else 0,
         "acyclic": 1 if is_acyclic(n, cons) else 0,
         "rounds": calls,
